@@ -934,12 +934,107 @@ def rule_self_referential_not_copied(prog, fixture=False):
     return r
 
 
+# ---------------------------------------------------------------- R-C08-12
+def rule_cursor_never_goes_back(prog, fixture=False):
+    r = RuleResult("R-C08-12", "a token handler never leaves the input cursor behind where it found it: on every path "
+                   "the net movement of *input is >= 0 (and that of *len <= 0) - a handler that backs up onto the byte "
+                   "that invoked it makes the line decoder call it again, for ever", floor=0 if fixture else 2)
+    for fn in prog.functions.values():
+        cur = [p_ for p_ in fn.params if (p_.get("ct") or p_.get("t") or "").replace(" ", "") in
+               ("constunsignedchar**", "unsignedcharconst**")]
+        ln = [p_ for p_ in fn.params if (p_.get("ct") or p_.get("t") or "").replace(" ", "") == "unsignedchar*"]
+        if not (cur and ln) or fn.body is None:
+            continue
+        cd = cur[0]["d"]
+
+        def delta(x):
+            """Movement of *input by statement x, or "?" if it is written in a way this rule does not follow."""
+            k = x.get("k")
+            tgt = strip_all(x["c"][0]) if x.get("c") else None
+            is_cur = tgt is not None and tgt.get("k") == "UnaryOperator" and tgt.get("op") == "*" and \
+                (strip_all(tgt["c"][0]) or {}).get("d") == cd
+            if not is_cur:
+                return 0
+            if k == "UnaryOperator" and x.get("op") in ("++", "--"):
+                return 1 if x["op"] == "++" else -1
+            if k == "CompoundAssignOperator" and x.get("op") in ("+=", "-=") and folded(x["c"][1]) is not None:
+                return folded(x["c"][1]) * (1 if x["op"] == "+=" else -1)
+            if k == "BinaryOperator" and x.get("op") == "=":
+                # *input = copy + k, `copy` being a never-reassigned local that was initialised with *input on entry
+                rhs = strip_all(x["c"][1])
+                off = 0
+                if rhs is not None and rhs.get("k") == "BinaryOperator" and rhs.get("op") in ("+", "-") and folded(rhs["c"][1]) is not None:
+                    off = folded(rhs["c"][1]) * (1 if rhs["op"] == "+" else -1)
+                    rhs = strip_all(rhs["c"][0])
+                if rhs is not None and rhs.get("k") == "DeclRefExpr" and rhs.get("dk") == "Var" and \
+                        not any(d_ == rhs["d"] for y in fn.walk() for d_, _ in flow.written_decls(y) if y.get("k") not in ("VarDecl", "DeclStmt")):
+                    for v in fn.walk():
+                        if v.get("k") == "VarDecl" and v.get("d") == rhs["d"] and v.get("c"):
+                            i_ = strip_all(v["c"][0])
+                            if i_ is not None and i_.get("k") == "UnaryOperator" and i_.get("op") == "*" and \
+                                    (strip_all(i_["c"][0]) or {}).get("d") == cd:
+                                # valid only if the copy was taken before any movement: checked by the caller of delta
+                                return ("abs", off, v)
+                return "?"
+            return 0
+
+        def step(st, x):
+            if st == "?":
+                return {"?"}
+            if x.get("k") in ("UnaryOperator", "CompoundAssignOperator", "BinaryOperator"):
+                d = delta(x)
+                if d == "?":
+                    return {"?"}
+                if isinstance(d, tuple):
+                    # the copy must have been taken while the cursor was still where the handler found it
+                    c0 = at_copy.get(id(d[2]))
+                    if c0 is None or c0 != {0}:
+                        return {"?"}
+                    return {max(-8, min(8, d[1]))}
+                nv = st + d
+                return {max(-8, min(8, nv))}
+            return {st}
+        at_copy = {}
+        inn0, at0 = flow.may_states(fn, {0}, lambda st, x: {st} if st == "?" or not isinstance(delta(x), int) else {max(-8, min(8, st + delta(x)))})
+        for v in fn.walk():
+            if v.get("k") == "VarDecl" and v.get("c"):
+                st0 = at0(v)
+                if st0 is not None:
+                    at_copy[id(v)] = st0
+        inn, at = flow.may_states(fn, {0}, step)
+        rets = [n for n in fn.walk() if n.get("k") == "ReturnStmt"]
+        worst = None
+        unknown = False
+        for n in rets:
+            sts = at(n)
+            if not sts:
+                continue
+            if "?" in sts:
+                unknown = True
+                continue
+            if n.get("c") and folded(n["c"][0]) == 0:
+                continue            # a failure return: the caller stops decoding
+            m = min(sts)
+            if m < 0 and (worst is None or m < worst[0]):
+                worst = (m, n)
+        key = "%s::%s::net-cursor-movement" % (fn.relfile(), fn.qn)
+        if worst is not None:
+            r.add(key, fn.loc(worst[1]), False, "on some path %s returns with *%s moved back by %d: the byte that invoked the "
+                  "handler is decoded again and the line decoder never gets past it" % (fn.qn, cur[0].get("n"), -worst[0]))
+        elif unknown:
+            r.undecided.append("%s: *%s is repositioned in a way this rule does not follow" % (fn.qn, cur[0].get("n")))
+        else:
+            r.add(key, "%s:%d" % (fn.relfile(), fn.line), True, "never moves the cursor backwards")
+    return r
+
+
 def run(ctx):
     prog = ctx.prog("basic", "N")
     res = [c19.rule_uninit(ctx, ["basic"], rule_id="R-C08-1"),
            rule_option_tables(prog), rule_exit_status(prog), rule_diagnosed_failures(prog), rule_longindex(prog),
            rule_cursor_discipline(prog), rule_index_ranges(prog), rule_resource_typestate(prog), rule_tables_filled(prog),
-           rule_nullable_table_strings(prog), rule_self_referential_not_copied(prog)]
+           rule_nullable_table_strings(prog), rule_self_referential_not_copied(prog),
+           rule_cursor_never_goes_back(prog)]
     # the same table rule applies to dfs's global options
     dfs = ctx.prog("dfs", "N")
     r2 = rule_option_tables(dfs)
